@@ -18,3 +18,6 @@ import Csproto.Bridge.Templates
 #print axioms Csproto.Gen.msg_fold
 #print axioms Csproto.Gen.opsFields_recs
 #print axioms Csproto.Gen.field_fold
+#print axioms Csproto.C05.marshal_record_tree
+#print axioms Csproto.C05.record_tree_well_formed
+#print axioms Csproto.C05.record_tree_decodes_to_message
